@@ -94,6 +94,19 @@ fn conj_cond(xs: &[X]) -> Condition {
     c
 }
 
+/// a row of a VALUES list as a `ValueTuple`: the variant of its arity, a Rust tuple converted, or `Many`
+pub(crate) fn value_tuple(r: &[Value]) -> ValueTuple {
+    match (r.len(), route(3)) {
+        (1, 0) => ValueTuple::One(r[0].clone()),
+        (1, 1) => r[0].clone().into_value_tuple(),
+        (2, 0) => ValueTuple::Two(r[0].clone(), r[1].clone()),
+        (2, 1) => (r[0].clone(), r[1].clone()).into_value_tuple(),
+        (3, 0) => ValueTuple::Three(r[0].clone(), r[1].clone(), r[2].clone()),
+        (3, 1) => (r[0].clone(), r[1].clone(), r[2].clone()).into_value_tuple(),
+        _ => ValueTuple::Many(r.to_vec()),
+    }
+}
+
 fn table_ref(f: &From_) -> TableRef {
     match f {
         From_::Table(t, None) => TableRef::Table(a(t).into_iden()),
@@ -104,7 +117,7 @@ fn table_ref(f: &From_) -> TableRef {
         }
         From_::Sub(q, al) => TableRef::SubQuery(sel(q), a(al).into_iden()),
         From_::Values(rows, al) => TableRef::ValuesList(
-            rows.iter().map(|r| ValueTuple::Many(r.clone())).collect(),
+            rows.iter().map(|r| value_tuple(r)).collect(),
             a(al).into_iden(),
         ),
         From_::Func(name, args, al) => TableRef::FunctionCall(Func::cust(a(name)).args(args.iter().map(|x| x.build())), a(al).into_iden()),
@@ -149,7 +162,7 @@ fn add_from(s: &mut SelectStatement, f: &From_) {
             }
         }
         From_::Values(rows, al) => {
-            s.from_values(rows.iter().map(|r| ValueTuple::Many(r.clone())), a(al));
+            s.from_values(rows.iter().map(|r| value_tuple(r)), a(al));
         }
         From_::Func(name, args, al) => {
             if route(2) == 0 {
@@ -178,6 +191,22 @@ fn add_order<S: OrderedStatement>(s: &mut S, o: &Ord_) {
     let (e, dir, nulls) = order_expr(o);
     // route: column forms for plain columns, expression forms otherwise
     match (&o.expr, nulls) {
+        // a custom fragment as the key has its own entry points
+        (X::Cust(w), None) if route(2) == 0 => {
+            s.order_by_customs([(w.as_str(), dir)]);
+        }
+        (X::Cust(w), Some(n)) if route(2) == 0 => {
+            s.order_by_customs_with_nulls([(w.as_str(), dir, n)]);
+        }
+        (X::Col(c), None) if route(3) == 0 => {
+            s.order_by_columns([(a(c), dir)]);
+        }
+        (X::Col(c), Some(n)) if route(3) == 0 => {
+            s.order_by_columns_with_nulls([(a(c), dir, n)]);
+        }
+        (X::QCol(t, c), Some(n)) if route(2) == 0 => {
+            s.order_by_with_nulls((a(t), a(c)), dir, n);
+        }
         (X::Col(c), None) if route(2) == 0 => {
             s.order_by(a(c), dir);
         }
@@ -208,8 +237,39 @@ fn frame_bound(b: &FrameBound) -> Frame {
 
 pub fn window(w: &Win) -> WindowStatement {
     let mut ws = WindowStatement::new();
-    for p in &w.partition {
-        ws.add_partition_by(p.build());
+    let mut parts = &w.partition[..];
+    // the constructors that start with one partition key
+    match parts.first() {
+        Some(X::QCol(t, c)) if route(3) == 0 => {
+            ws = WindowStatement::partition_by((a(t), a(c)));
+            parts = &parts[1..];
+        }
+        Some(X::Cust(w)) if route(2) == 0 => {
+            ws = WindowStatement::partition_by_custom(w.as_str());
+            parts = &parts[1..];
+        }
+        _ => {}
+    }
+    let all_cols: Option<Vec<(Alias, Alias)>> = parts.iter().map(|p| if let X::QCol(t, c) = p { Some((a(t), a(c))) } else { None }).collect();
+    match all_cols {
+        Some(cols) if !cols.is_empty() && route(3) == 0 => {
+            OverStatement::partition_by_columns(&mut ws, cols);
+            parts = &[];
+        }
+        _ => {}
+    }
+    for p in parts {
+        match p {
+            X::QCol(t, c) if route(2) == 0 => {
+                OverStatement::partition_by(&mut ws, (a(t), a(c)));
+            }
+            X::Cust(w) if route(2) == 0 => {
+                ws.partition_by_customs([w.as_str()]);
+            }
+            _ => {
+                ws.add_partition_by(p.build());
+            }
+        }
     }
     for o in &w.order {
         add_order(&mut ws, o);
@@ -217,6 +277,9 @@ pub fn window(w: &Win) -> WindowStatement {
     if let Some((rows, s, e)) = &w.frame {
         let ty = if *rows { FrameType::Rows } else { FrameType::Range };
         match e {
+            _ if route(3) == 0 => {
+                ws.frame(ty, frame_bound(s), e.as_ref().map(frame_bound));
+            }
             Some(e) => {
                 ws.frame_between(ty, frame_bound(s), frame_bound(e));
             }
@@ -228,9 +291,8 @@ pub fn window(w: &Win) -> WindowStatement {
     ws
 }
 
-pub fn with_clause(w: &With) -> WithClause {
-    let mut wc = WithClause::new();
-    wc.recursive(w.recursive);
+fn cte_list(w: &With) -> Vec<CommonTableExpression> {
+    let mut out = vec![];
     for c in &w.ctes {
         let mut cte = match (&*c.body, c.infer) {
             (CteBody::Sel(q), true) if route(2) == 0 => CommonTableExpression::from_select(sel(q)),
@@ -264,7 +326,7 @@ pub fn with_clause(w: &With) -> WithClause {
             cte.materialized(m);
         }
         if c.infer {
-            wc.cte(cte);
+            out.push(cte);
             continue;
         }
         match &*c.body {
@@ -273,16 +335,46 @@ pub fn with_clause(w: &With) -> WithClause {
             CteBody::Upd(q) => cte.query(upd(q)),
             CteBody::Del(q) => cte.query(del(q)),
         };
-        wc.cte(cte);
+        out.push(cte);
     }
+    out
+}
+
+fn search_of(w: &With) -> Option<Search> {
     if let Some((breadth, by, set)) = &w.search {
-        wc.search(Search::new_from_order_and_expr(
-            if *breadth { SearchOrder::BREADTH } else { SearchOrder::DEPTH },
-            SelectExpr { expr: Expr::col(a(by)).into(), alias: Some(a(set).into_iden()), window: None },
-        ));
+        let order = if *breadth { SearchOrder::BREADTH } else { SearchOrder::DEPTH };
+        let expr = SelectExpr { expr: Expr::col(a(by)).into(), alias: Some(a(set).into_iden()), window: None };
+        return Some(if route(2) == 0 {
+            Search::new().expr(expr).order(order).to_owned()
+        } else {
+            Search::new_from_order_and_expr(order, expr)
+        });
     }
+    None
+}
+
+fn cycle_of(w: &With) -> Option<Cycle> {
     if let Some((col, set, using)) = &w.cycle {
-        wc.cycle(Cycle::new_from_expr_set_using(Expr::col(a(col)), a(set), a(using)));
+        return Some(if route(2) == 0 {
+            Cycle::new().using(a(using)).set(a(set)).expr(Expr::col(a(col))).to_owned()
+        } else {
+            Cycle::new_from_expr_set_using(Expr::col(a(col)), a(set), a(using))
+        });
+    }
+    None
+}
+
+pub fn with_clause(w: &With) -> WithClause {
+    let mut wc = WithClause::new();
+    wc.recursive(w.recursive);
+    for c in cte_list(w) {
+        wc.cte(c);
+    }
+    if let Some(x) = search_of(w) {
+        wc.search(x);
+    }
+    if let Some(x) = cycle_of(w) {
+        wc.cycle(x);
     }
     wc
 }
@@ -433,6 +525,9 @@ pub fn sel(s: &Sel) -> SelectStatement {
             }
             (From_::Table(t, None), JoinKind::Full, true) => {
                 q.full_outer_join(a(t), cond);
+            }
+            (From_::Table(t, None), JoinKind::Cross, true) => {
+                q.cross_join(a(t), cond);
             }
             (f, _, _) => {
                 q.join(jt, table_ref(f), cond);
@@ -616,7 +711,9 @@ fn union_type(op: SetOp) -> UnionType {
 fn returning_clause(r: &RetSpec) -> ReturningClause {
     match r {
         RetSpec::All => Query::returning().all(),
+        RetSpec::Cols(c) if c.len() == 1 && route(2) == 0 => Query::returning().column(a(&c[0])),
         RetSpec::Cols(c) => Query::returning().columns(c.iter().map(|x| a(x))),
+        RetSpec::Exprs(e) if e.len() == 1 && route(2) == 0 => Query::returning().expr(e[0].build()),
         RetSpec::Exprs(e) => Query::returning().exprs(e.iter().map(|x| x.build())),
     }
 }
@@ -781,7 +878,17 @@ pub fn upd(s: &Upd) -> UpdateStatement {
         q.limit(l);
     }
     if let Some(r) = &s.returning {
-        q.returning(returning_clause(r));
+        match r {
+            RetSpec::All if route(2) == 0 => {
+                q.returning_all();
+            }
+            RetSpec::Cols(c) if c.len() == 1 && route(2) == 0 => {
+                q.returning_col(a(&c[0]));
+            }
+            _ => {
+                q.returning(returning_clause(r));
+            }
+        }
     }
     if let Some(w) = &s.with {
         q.with_cte(with_clause(w));
@@ -803,7 +910,17 @@ pub fn del(s: &Del) -> DeleteStatement {
         q.limit(l);
     }
     if let Some(r) = &s.returning {
-        q.returning(returning_clause(r));
+        match r {
+            RetSpec::All if route(2) == 0 => {
+                q.returning_all();
+            }
+            RetSpec::Cols(c) if c.len() == 1 && route(2) == 0 => {
+                q.returning_col(a(&c[0]));
+            }
+            _ => {
+                q.returning(returning_clause(r));
+            }
+        }
     }
     if let Some(w) = &s.with {
         q.with_cte(with_clause(w));
@@ -817,9 +934,65 @@ pub enum Built {
     Ins(InsertStatement),
     Upd(UpdateStatement),
     Del(DeleteStatement),
+    /// a statement given its WITH clause from outside: `stmt.with(clause)` / `clause.query(stmt)` / the
+    /// `WithQuery` builder
+    With(WithQuery),
+}
+
+fn with_query<T: QueryStatementBuilder + 'static>(w: &With, body: T, via_stmt: impl FnOnce(T, WithClause) -> WithQuery) -> WithQuery {
+    match route(3) {
+        0 => via_stmt(body, with_clause(w)),
+        1 => with_clause(w).query(body),
+        _ => {
+            // the WithQuery builder: the whole clause, or its parts one by one
+            let mut wq = WithQuery::new();
+            if route(2) == 0 {
+                wq.with_clause(with_clause(w));
+            } else {
+                wq.recursive(w.recursive);
+                for c in cte_list(w) {
+                    wq.cte(c);
+                }
+                if let Some(x) = search_of(w) {
+                    wq.search(x);
+                }
+                if let Some(x) = cycle_of(w) {
+                    wq.cycle(x);
+                }
+            }
+            wq.query(body);
+            wq
+        }
+    }
 }
 
 pub fn stmt(s: &Stmt) -> Built {
+    // a top-level WITH clause can be attached from outside instead of through with_cte()
+    if route(3) == 0 {
+        match s {
+            Stmt::Sel(q) if q.with.is_some() => {
+                let mut body = q.clone();
+                let w = body.with.take().unwrap();
+                return Built::With(with_query(&w, sel(&body), |b, c| b.with(c)));
+            }
+            Stmt::Ins(q) if q.with.is_some() => {
+                let mut body = q.clone();
+                let w = body.with.take().unwrap();
+                return Built::With(with_query(&w, ins(&body), |b, c| b.with(c)));
+            }
+            Stmt::Upd(q) if q.with.is_some() => {
+                let mut body = q.clone();
+                let w = body.with.take().unwrap();
+                return Built::With(with_query(&w, upd(&body), |b, c| b.with(c)));
+            }
+            Stmt::Del(q) if q.with.is_some() => {
+                let mut body = q.clone();
+                let w = body.with.take().unwrap();
+                return Built::With(with_query(&w, del(&body), |b, c| b.with(c)));
+            }
+            _ => {}
+        }
+    }
     match s {
         Stmt::Sel(q) => Built::Sel(sel(q)),
         Stmt::Ins(q) => Built::Ins(ins(q)),
@@ -835,6 +1008,7 @@ impl Built {
             Built::Ins(s) => s,
             Built::Upd(s) => s,
             Built::Del(s) => s,
+            Built::With(s) => s,
         }
     }
     pub fn inline(&self, q: &dyn QueryBuilder) -> String {
